@@ -11,8 +11,10 @@ def run(ctx):
                   "5 URIs incl. '%' ';' '%3b'), GUIDs, NumericRanges (none, index, range, 2 (thorough 3) and 10 dimensions "
                   "over 0/1/9/10/2^32-1), DateTimes (6 dates x 3 times x 7 sub-second tick values, both string forms); each "
                   "value is printed and re-parsed by the real code and TLC compares the re-abstracted value with the original. "
-                  "No-panic half: every string of length <= 4 (thorough 5) over {n s u v r = ; i g b 1 U+20AC} and every "
-                  "one-character mutation of 9 printed texts goes through all 7 parsers; distinct by input")
+                  "No-panic half: every string of length <= 4 (thorough 5) over {n s u v r = ; i g b 1 U+20AC} (thorough also over "
+                  "{0 1 9 : , - T Z . +}) and every one-character replacement / insertion / deletion in 9 printed texts goes "
+                  "through NodeId, ExpandedNodeId, Identifier, Guid, NumericRange, DateTime::from_str and "
+                  "DateTime::parse_from_rfc3339 under catch_unwind; distinct by input")
     ctx.assumptions += [
         "an ExpandedNodeId with a namespace URI has namespace index 0 (Part 4 7.11: the index is ignored when the URI is given)",
         "NumericRange values have at most 10 dimensions (implementation limit MAX_INDICES) and a multi-dimensional range has >= 2",
